@@ -122,7 +122,10 @@ def check_case(case) -> Result:
             res.skipped = "bubble point <= 50"
             return res
         hi = min(2.5 * pb, 30.0 * ppc, 20000.0)
-        ps = np.array(sorted({15.0 + f * (hi - 15.0) for f in case["fracs"]}))
+        # pressures in the generated (arbitrary) order, with a repeated value when there are at least three
+        ps = np.array([15.0 + f * (hi - 15.0) for f in case["fracs"]])
+        if len(ps) >= 3:
+            ps[-1] = ps[0]
         arr = list(ps) if case["as_list"] else ps
         arr_np = ps  # methods that index/mask need an ndarray
         pairs = [
